@@ -21,6 +21,15 @@ Proof.
   - etransitivity; eassumption.
   - apply IH. assumption.
 Qed.
+Lemma veq_dec a b : {veq a b} + {~ veq a b}.
+Proof.
+  revert b. induction a as [|x a IH]; intros [|y b].
+  - left. constructor.
+  - right. intros H. inversion H.
+  - right. intros H. inversion H.
+  - destruct (Qeq_dec x y) as [E|N]; [|right; intros H; inversion H; contradiction].
+    destruct (IH b) as [E2|N2]; [left; constructor; assumption|right; intros H; inversion H; contradiction].
+Qed.
 Lemma veq_vle a b : veq a b -> vle a b.
 Proof. induction 1 as [|x y a b H]; constructor; [rewrite H; apply Qle_refl|assumption]. Qed.
 Lemma vlt_vle a b : vlt a b -> vle a b.
